@@ -471,33 +471,45 @@ Theorem image_tree_roundtrip : forall compress uncompress, contract compress unc
 Proof. exact tree_roundtrip_image_l. Qed.
 Print Assumptions image_tree_roundtrip.
 
-(* writer_valid, full statement (NOT proved in full):
-     write_image compress limit cfg inp = Ok w -> image_domain cfg inp = true -> image_fits w = true ->
-     valid_image uncompress (c_devblk cfg) (image_bytes w) = true.
-   Proved part: the super block clause and the six layout / lookup table clauses of valid_image (v_size: bytes_used
-   <= file size = next multiple of the device block; v_order: section starts strictly ordered as the format
-   prescribes; v_opts: compressor options flag <-> one uncompressed metadata block behind the super block; v_meta:
-   inode and directory table are gap-free block sequences, every block header / content <= 8 KiB, stored <= content;
-   v_chain: fragment / export / id table blocks are exactly where their location lists say, sections follow each
-   other without gaps up to bytes_used; v_tables: table sizes match their counts) hold, and valid_image's verdict
-   equals that of the remaining three clauses valid_tree (v_inodes: the inode table decodes into exactly inode_count
-   inodes numbered 1 .. inode_count with id indices in range; v_root; v_dirs: per directory the invariants of
-   serialized_dirs_wellformed).  Missing: those three clauses for the scan-based executable validator — their
-   content is proved about the reader specification instead (image_tree_roundtrip, serialized_dirs_wellformed,
-   serialize_refs_resolve) and the validator itself is run on every tie case.  The xattr section is an abstract input:
-   the hypothesis xattr_section_ok says it is empty or well-formed in place. *)
-Theorem writer_valid_partial : forall compress uncompress, contract compress uncompress ->
+(* writer_valid: the executable validator (doc/format.adoc; coq/Image/ValidModel.v) accepts every image write_image
+   produces — all clauses: super block sane; v_size (bytes_used <= file size = next multiple of the device block, zero
+   padding); v_order (section starts strictly ordered as the format prescribes); v_opts (compressor options flag <-> one
+   uncompressed metadata block behind the super block); v_meta (inode and directory table are gap-free block
+   sequences, every block header / content <= 8 KiB, stored size <= content size); v_chain (fragment / export / id table
+   blocks are exactly where their location lists say, sections follow each other without gaps up to bytes_used);
+   v_tables (table sizes match their counts); v_inodes (the inode table decodes into exactly inode_count inodes numbered
+   1 .. inode_count, id indices inside the id table); v_root (the root reference is the start of a directory inode);
+   v_dirs (every directory listing lies where its inode says, parses into header runs of <= 256 entries, names strictly
+   sorted, every entry's reference is the START of the inode with the entry's number and type).
+   The xattr section is an abstract input of the model: the hypothesis xattr_section_ok says it is empty or passes the
+   validator's xattr_tail check in place (key-value blocks, id blocks, header + location list ending at bytes_used). *)
+Theorem writer_valid : forall compress uncompress, contract compress uncompress ->
+  forall limit, limit <= 65535 ->
+  forall cfg inp w,
+  write_image compress limit cfg inp = Res.Ok w -> image_domain cfg inp = true -> image_fits w = true ->
+  xattr_section_ok uncompress w ->
+  valid_image uncompress (c_devblk cfg) (image_bytes w) = true.
+Proof.
+  exact (fun c u H l Hl cfg inp w Hw Hd Hf => writer_valid_l c u H l Hl cfg inp w Hw Hd Hf (c_devblk cfg) eq_refl).
+Qed.
+Print Assumptions writer_valid.
+
+(* the same, clause by clause (what each part of the validator says about the written image) *)
+Theorem writer_valid_clauses : forall compress uncompress, contract compress uncompress ->
   forall limit, limit <= 65535 ->
   forall cfg inp w,
   write_image compress limit cfg inp = Res.Ok w -> image_domain cfg inp = true -> image_fits w = true ->
   xattr_section_ok uncompress w ->
   read_super (image_bytes w) = Some (w_super w) /\
   valid_layout uncompress (c_devblk cfg) (image_bytes w) (w_super w) = true /\
-  valid_image uncompress (c_devblk cfg) (image_bytes w) = valid_tree uncompress (image_bytes w) (w_super w).
+  valid_tree uncompress (image_bytes w) (w_super w) = true.
 Proof.
-  exact (fun c u H l Hl cfg inp w Hw Hd Hf => writer_valid_partial_l c u H l Hl cfg inp w Hw Hd Hf (c_devblk cfg) eq_refl).
+  exact (fun c u H l Hl cfg inp w Hw Hd Hf Hx =>
+           conj (super_roundtrip_l c u H l Hl cfg inp w Hw Hd Hf)
+                (conj (valid_layout_l c u H l Hl cfg inp w Hw Hd Hf (c_devblk cfg) eq_refl Hx)
+                      (valid_tree_l c u H l Hl cfg inp w Hw Hd Hf))).
 Qed.
-Print Assumptions writer_valid_partial.
+Print Assumptions writer_valid_clauses.
 
 (* non-vacuity: the hypotheses hold of a concrete image (96 inode tree of Img/Example.v, zero-run-length compressor,
    compressor options, data area, a fragment, export table), and of a second one without any optional section *)
@@ -546,3 +558,22 @@ Example ex_image_reads_back :
   | _ => False
   end.
 Proof. exact Example.ex_image_reads_back. Qed.
+
+(* image_trace_ok: the output calls write_image emits (provisional super block at 0, one call per section behind it,
+   the committed super block at 0, the padding) applied to the empty file give exactly image_bytes, and the sequence
+   has the shape C14 proves crash safety for (TraceModel.trace_ok: nothing touches the first 96 bytes between the two
+   super block writes, the committed bytes_used lies inside the file, every table start of the committed super block is
+   absent or inside [96, bytes_used), the tail stays behind bytes_used).  (One event per section: the real system call
+   sequence is finer; C14 checks that one on logged runs.) *)
+From SqfsV Require C14.TraceModel.
+Theorem image_trace_ok : forall compress uncompress, contract compress uncompress ->
+  forall limit, limit <= 65535 ->
+  forall cfg inp w,
+  write_image compress limit cfg inp = Res.Ok w -> image_domain cfg inp = true -> image_fits w = true ->
+  TraceModel.apply (w_trace w) = image_bytes w /\ TraceModel.trace_ok (w_trace w).
+Proof.
+  exact (fun c u H l Hl cfg inp w Hw Hd Hf =>
+           conj (trace_applies_l c u H l Hl cfg inp w Hw Hd (c_devblk cfg) eq_refl)
+                (trace_ok_l c u H l Hl cfg inp w Hw Hd Hf (c_devblk cfg) eq_refl)).
+Qed.
+Print Assumptions image_trace_ok.
